@@ -502,7 +502,8 @@ def run(ctx):
 FIXED_SDL = ("type Query { a(l: [Int], x: String, o: In, i: Int): Int, b: Ob, u: U, n: Node, ns: [Node!], s: String!, lim(limit: Int = 2, o: In = {a: 1}): Int }\n"
              "type Ob implements Node { id: ID, t(x: Int): String, a(l: [Int]): Int, b: Ob, only: Other }\n"
              "type Other implements Node { id: ID, t(x: Int): String, c: String, b: Ob, d: Int }\n"
-             "interface Node { id: ID, t(x: Int): String, b: Ob }\ninput In { a: Int }\nunion U = Ob | Other\n")
+             "interface Node { id: ID, t(x: Int): String, b: Ob }\ninput In { a: Int }\nunion U = Ob | Other\n"
+             "directive @custom(flag: Boolean!, n: Int = 3) on FIELD\n")
 
 FIXED = [
     ("V1-inline-unknown-type", "{ ... on Unknown { a } }", {}),
@@ -533,6 +534,9 @@ FIXED = [
     ("directive-null-variable-spread-nested-quirk", "query($v: Boolean = true){ ... on Query { ...Q } ...Q } fragment Q on Query { b { ...F ... { ...F } } } fragment F on Ob { b { id @include(if:$v) } }", {"v": None}),
     ("directive-null-variable-inline", "query($v: Boolean = true){ n { ... on Node @skip(if:$v) { id } } a }", {"v": None}),
     ("directive-null-variable-default-used", "query($v: Boolean = true){ b @skip(if:$v) { id } a }", {}),
+    ("custom-directive-null-variable", "query($v: Boolean = true){ a @custom(flag: $v) s }", {"v": None}),
+    ("custom-directive-null-variable-nested", "query($v: Boolean = true, $n: Int = 1){ b { id @custom(flag: $v, n: $n) t } ns { id @custom(flag: true, n: $n) } }", {"v": None, "n": None}),
+    ("custom-directive-ok", "query($v: Boolean = true){ a @custom(flag: $v) b { id @custom(flag: false) } }", {"v": False}),
     ("list-literal-at-scalar-argument", "{ a(i: [1]) }", {}),
     ("nested-subconflict", "{ b { b { x: id } } b { b { x: a } } }", {}),
     ("nested-subconflict-deep", "{ b { b { b { x: id y: a } } } b { b { b { y: id x: a } } } }", {}),
